@@ -509,9 +509,11 @@ class ImageBatch(DataTensor):
             ceil_mode=ceil_mode,
             count_include_pad=count_include_pad,
         )
+        # Tensor function expects kernel size in the order (..., X), whereas Grid.avg_pool() expects (X, ...)
+        grid_kernel_size = kernel_size if isinstance(kernel_size, int) else tuple(reversed(kernel_size))
         grid = tuple(
             grid.avg_pool(
-                kernel_size,
+                grid_kernel_size,
                 stride=stride,
                 padding=padding,
                 ceil_mode=ceil_mode,
